@@ -1180,6 +1180,7 @@ impl<'a> Sim<'a> {
             self.led.accept_order(q);
         }
         // C09: entry condition
+        self.liquidation_value_rule("C09", &o1, "after check");
         let long_after = o1.holdings.values().all(|v| *v >= 0.0);
         if !o0.failed && whole_long_before && long_after {
             let shortfall = o1.cash < 0.0;
@@ -1260,36 +1261,42 @@ impl<'a> Sim<'a> {
         self.abstract_state(&o1);
     }
 
+    /// "Liquidation value" under the property's cost model, computed here from cash, holdings and the last
+    /// seen bids: what selling every position would leave after costs (per-share fees move the price, not
+    /// the proceeds). The broker's own figure, which decides Failed (C09) and sizes the orders (C12), must
+    /// be this number.
+    fn liquidation_value_rule(&mut self, prop: &'static str, o: &Obs, when: &str) {
+        if !self.ctx.wants(prop) {
+            return;
+        }
+        let mut own = o.cash;
+        let mut mag = o.cash.abs();
+        for (sym, qty) in &o.holdings {
+            if *qty == 0.0 {
+                // not a position: nothing to sell, no fee to pay
+                continue;
+            }
+            if let Some(q) = o.quotes.get(sym) {
+                let v = q.0 * *qty;
+                let (net, _) = impact_total(&self.cost_specs, v, q.0, false);
+                own += net;
+                mag += v.abs() + net.abs();
+            }
+        }
+        rule!(
+            self.ctx, prop, "liquidation-value", "cost-model", (o.liq - own).abs() <= 1e-9 * mag.max(1.0),
+            "{when}: the broker's liquidation value is {:?}, but cash {:?} + what the positions {{{}}} fetch at the last seen bids after costs {:?} is {:?}",
+            o.liq, o.cash, fmt_map(&o.holdings), self.cost_specs, own
+        );
+    }
+
     fn do_diff(&mut self, weights: &[(String, X)], second: &[usize], send: bool, o0: &Obs, _s0: &VerifSnapshot) {
         let w: Vec<(String, f64)> = weights.iter().map(|(s, x)| (s.clone(), x.0)).collect();
         if o0.liq == 0.0 {
             self.ctx.bump("skipped_out_of_domain_zero_value_portfolio");
             return;
         }
-        // "liquidation value" under the property's cost model, computed here from cash, holdings and the
-        // last seen bids: what selling every position would leave after costs (per-share fees move the
-        // price, not the proceeds). The broker's own figure, which sizes the orders, must be this number.
-        if self.ctx.wants("C12") {
-            let mut own = o0.cash;
-            let mut mag = o0.cash.abs();
-            for (sym, qty) in &o0.holdings {
-                if *qty == 0.0 {
-                    // not a position: nothing to sell, no fee to pay
-                    continue;
-                }
-                if let Some(q) = o0.quotes.get(sym) {
-                    let v = q.0 * *qty;
-                    let (net, _) = impact_total(&self.cost_specs, v, q.0, false);
-                    own += net;
-                    mag += v.abs() + net.abs();
-                }
-            }
-            rule!(
-                self.ctx, "C12", "liquidation-value", "cost-model", (o0.liq - own).abs() <= 1e-9 * mag.max(1.0),
-                "before diff: the broker's liquidation value is {:?}, but cash {:?} + what the positions {{{}}} fetch at the last seen bids after costs {:?} is {:?}",
-                o0.liq, o0.cash, fmt_map(&o0.holdings), self.cost_specs, own
-            );
-        }
+        self.liquidation_value_rule("C12", o0, "before diff");
         let map1 = realise(&w);
         let got1 = self.brkr.diff_brkr_against_target_weights(&map1);
         let (exp, zero_gap, negative_budget) = expected_diff(o0, &self.cost_specs, &w);
